@@ -1169,11 +1169,11 @@ def run(ctx: fw.Ctx) -> int:
     for name, sc in corpus_scenarios():
         ctx.count('corpus', name)
         scenario_cases(ctx, sc, D)
-    for i in range(ctx.scale(400, 4000)):
+    for i in range(ctx.scale(300, 4000)):
         scenario_cases(ctx, G.scenario(), D)
-    direct_patch_cases(ctx, G, ctx.scale(500, 9000), D)
+    direct_patch_cases(ctx, G, ctx.scale(350, 6000), D)
     response_cases(ctx, G, ctx.scale(200, 3000), D, exhaustive_k=4)
-    selection_table(ctx, D, stride=ctx.scale(9, 1))
+    selection_table(ctx, D, stride=ctx.scale(12, 1))
     pointer_cases(ctx, G, ctx.scale(100, 1500), D)
 
     for name, cases in D.items():
